@@ -136,7 +136,8 @@ def handle (cmd : String) (args impl : List String) : Option (String × String) 
     let (_tf, r) ← pBytes r
     let (bs, r) ← pBatches r
     if r ≠ [] then none
-    let m := kafkaRun growDouble ⟨bsz, deft, usef⟩ lim bs
+    let kc : KCfg := ⟨bsz, deft, usef⟩
+    let m := kafkaRun growDouble kc lim bs
     let p := match impl with
       | t :: _ =>
         if t.startsWith "panic" then
@@ -144,7 +145,7 @@ def handle (cmd : String) (args impl : List String) : Option (String × String) 
           (if bs.any (fun b => (deliverable b).length > bsz) then "ok" else "fail")
         else match pList (pList pRec) impl with
           | some (obs, []) =>
-            if obs.length = bs.length && (bs.zip obs).all (fun (b, o) => holdsKafka b o) then "ok" else "fail"
+            if obs.length = bs.length && (bs.zip obs).all (fun (b, o) => holdsKafka kc b o) then "ok" else "fail"
           | _ => "bad-impl"
       | [] => "bad-impl"
     pure (encKafka m, p)
@@ -171,7 +172,7 @@ def handle (cmd : String) (args impl : List String) : Option (String × String) 
     if r ≠ [] then none
     let c : EsCfg := ⟨op, fmt, tm, if vals = [] then [atTime] else vals⟩
     let m := httpLikeRun (esOut c split lim) none sc bs
-    let p := verdictHttp split isOkStatus unframeES (esEventOk op) bs impl
+    let p := verdictHttp split isOkStatus unframeES (esEventOk c) bs impl
     pure (encHttp m, p)
   | "c19.splunk" => do
     let (lim, r) ← pNat args
